@@ -91,7 +91,7 @@ def deadline(ctx, fn="calculate_timeout_when", part="all"):
 
 # ------------------------------------------------------------------ fault scripts
 PHASES = ["connect", "before-status", "mid-header", "mid-body", "mid-chunk", "none", "none-chunked-big",
-          "none-late-body"]
+          "none-late-body", "pool-wait", "send-body"]
 
 
 def fault(ctx, phases=None, kinds=None, cancel=False):
@@ -119,6 +119,8 @@ def fault(ctx, phases=None, kinds=None, cancel=False):
             proto = ResponseHandler(loop)
             tr = MemTransport()
             proto.connection_made(tr)
+            if phase == "send-body" and not conns:
+                proto.pause_writing()  # the peer's receive window is closed: drain() blocks
             conns.append({"proto": proto, "tr": tr, "answered": 0})
             return proto
 
@@ -127,17 +129,22 @@ def fault(ctx, phases=None, kinds=None, cancel=False):
                                 sock_read=value if kind == "sock_read" else None)
 
     async def mk():
-        return aiohttp.ClientSession(connector=Conn(limit=2), timeout=tmo, read_bufsize=4,
+        return aiohttp.ClientSession(connector=Conn(limit=1 if phase == "pool-wait" else 2), timeout=tmo, read_bufsize=4,
                                      cookie_jar=aiohttp.DummyCookieJar())
 
     session = loop.run_until_complete(mk())
     connector = session.connector
     result = {}
 
-    async def call(path, key):
+    async def call(path, key, timeout=None, data=None):
         t0 = loop.time()
+        kw = {}
+        if timeout is not None:
+            kw["timeout"] = timeout
+        if data is not None:
+            kw["data"] = data
         try:
-            async with session.get("http://h" + path) as resp:
+            async with session.request("POST" if data is not None else "GET", "http://h" + path, **kw) as resp:
                 if phase == "none-late-body" and key == "first":
                     # the caller does something else before it reads: the body piles up unread
                     await asyncio.sleep(0.2)
@@ -190,9 +197,14 @@ def fault(ctx, phases=None, kinds=None, cancel=False):
                 else:
                     c["proto"].data_received(full_cl)
 
-    t1 = asyncio.Task(call("/first", "first"), loop=loop)
+    holder = None
+    if phase == "pool-wait":
+        # another request of the same session holds the only slot; it has no timeout of its own
+        holder = asyncio.Task(call("/holder", "holder", timeout=aiohttp.ClientTimeout()), loop=loop)
+        loop.run_ready()
+    t1 = asyncio.Task(call("/first", "first", data=(b"x" * 70000) if phase == "send-body" else None), loop=loop)
     loop.run_ready()
-    stall = None if phase == "connect" else phase
+    stall = None if phase == "connect" else ("before-status" if phase in ("pool-wait", "send-body") else phase)
     peer(stall)
     loop.run_ready()
     if cancel:
@@ -205,10 +217,12 @@ def fault(ctx, phases=None, kinds=None, cancel=False):
         loop.advance(0.5)
         peer(stall)
     stalls = phase not in ("none", "none-chunked-big", "none-late-body")
+    if phase == "pool-wait" and len(conns) != 1:
+        return fail("pool-limit-not-enforced-in-harness", conns=len(conns))
     tag = f"{phase}:{kind}{':cancel' if cancel else ''}"
     if stalls and not cancel:
-        expect_timeout = (kind == "total") or (kind == "connect" and phase == "connect") or \
-                         (kind == "sock_read" and phase != "connect")
+        expect_timeout = (kind == "total") or (kind == "connect" and phase in ("connect", "pool-wait")) or \
+                         (kind == "sock_read" and phase not in ("connect", "pool-wait", "send-body"))
         if expect_timeout:
             if not t1.done():
                 return fail("timeout-never-fires")
@@ -230,9 +244,18 @@ def fault(ctx, phases=None, kinds=None, cancel=False):
     loop.run_ready()
     if not t1.done():
         return fail("request-task-never-ends")
+    if holder is not None:
+        # the bystander that shares the pool is neither failed nor cancelled: its peer answers now
+        if holder.done():
+            return fail("bystander-request-ended-with-the-timed-out-one:" + str(result.get("holder", ("?",))[0]))
+        conns[0]["proto"].data_received(b"HTTP/1.1 200 OK\r\nContent-Length: 12\r\n\r\nhello world!")
+        conns[0]["answered"] = 1
+        loop.run_ready()
+        if not holder.done() or result.get("holder", ("?",))[0] != "ok":
+            return fail("bystander-request-fails:" + str(result.get("holder", ("pending",))[0]))
     # ---- residue
     first_ok = result.get("first", ("?",))[0] == "ok"
-    if not first_ok and stalls:
+    if not first_ok and stalls and phase != "pool-wait":
         # (a response that had arrived completely before the caller was cancelled may be pooled)
         for c in conns[:1]:
             if not c["tr"].closed:
